@@ -193,6 +193,15 @@ def perform(M, rt, call, truth):
             out = e.value
         for v in got:
             note("yield", v)
+    elif f == "g0_abandon":
+        # the generator is left suspended after its first value and dropped (a loop with `break`); such a call carries no
+        # verdict of its own - but nothing of it may leak into what is recorded for the calls that follow
+        g = M.g0(a0)
+        next(g, None)
+        del g
+        del rt.RET[:]
+        del rt.YS[:]
+        return
     elif f == "fm":
         b = args[1] if len(args) > 1 else None
         note("a", a0), note("b", b)            # as they were when the call started
@@ -325,7 +334,10 @@ def run_sound_case(case):
             ab2, pos2 = stub_positions(text2, own, truth)
             key = lambda ps: sorted((p["f"], p["pos"], absmodel.canon(p["ann"])) for p in ps)  # noqa: E731
             ib_agrees = key(pos2) == key(positions) and td_key_counts(ab2) == td_key_counts(ab)
-        rec = {"tid": case["tid"], "ev": "Sound", "k": case["k"], "positions": positions, "tds": td_key_counts(ab), "ib_agrees": ib_agrees,
+        for q in positions:
+            q["defnone"] = q["pos"] == "b"          # the only parameters of the target module with a None default
+        rec = {"tid": case["tid"], "ev": "Sound", "k": case["k"], "tight": case["k"] == 0 and case["rw"] == "NONE" and not case["flag"],
+               "positions": positions, "tds": td_key_counts(ab), "ib_agrees": ib_agrees,
                "stored": stored_encodings(db), "obs": [], "tdobs": [], "stub": out.getvalue()[:1200],
                "unres_sig": ab.get("unres_sig", []), "unres_td": ab.get("unres_td", []), "dup_td": ab.get("dup_td", False)}
         return rec
@@ -397,7 +409,7 @@ def run_same_case(case):
         ab, positions = stub_positions(text, {"K": M.K}, {})
         obs.append([{"f": q["f"], "pos": q["pos"], "ann": q["ann"]} for q in positions])
         tdobs.append([{"name": t["name"], "keys": t["keys"]} for t in td_key_counts(ab)])
-    return {"tid": case["tid"], "ev": "Same", "k": case["k"], "positions": [], "tds": [], "stored": [], "obs": obs, "tdobs": tdobs, "ib_agrees": True,
+    return {"tid": case["tid"], "ev": "Same", "k": case["k"], "tight": False, "positions": [], "tds": [], "stored": [], "obs": obs, "tdobs": tdobs, "ib_agrees": True,
             "stub": texts[0][:800], "stub_other": next((t for t in texts if t != texts[0]), "")[:800]}
 
 
@@ -518,6 +530,17 @@ def gen_sound(tier, seed, env_text):
             many.append([one(usual) for _ in range(35)] + [one(rare)] + [one(usual) for _ in range(35)])
     add("a rare value once, the usual one 70 times, query limit 50 / 5 (distinct traces: 2)", many, [0], ["NONE", "DEFAULT"],
         ["--limit 50", "--limit 5"])
+    # a generator abandoned while suspended, then calls of functions with frames of several sizes (an address is reused)
+    aband = []
+    for rounds in (6, 20):
+        h = []
+        for i in range(rounds):
+            h.append({"f": "g0_abandon", "args": [A("int")], "ret": A("NoneType"), "ys": [A("int"), A("int")]})
+            for f, v in (("f1", Sx("s")), ("f0", A("float")), ("K.m", C("list", Sx("s"))), ("K.s", A("bytes")), ("z0", Sx("s"))):
+                h.append(mk_call(f, [v, v], v) if f != "z0" else {"f": "z0", "args": [], "ret": v, "ys": []})
+        h.append({"f": "g0", "args": [A("int")], "ret": A("NoneType"), "ys": [A("int")]})
+        aband.append(h)
+    add("a generator abandoned while suspended, then calls with frames of several sizes, in rounds", aband, [0], ["NONE", "DEFAULT"], [""])
     # string keys that cannot be written as a field of a class-syntax TypedDict
     odd = [[mk_call(f, [dk("content-type", "a")], dk("class"))] for f in ("f1", "K.m")] + \
           [[mk_call("f1", [C("list", dk("1abc"), dk("a"))], dk("a b", "b"))], [mk_call("f0", [dk("a"), dk("")], C("list", dk("def", "x-y")))]]
@@ -665,7 +688,7 @@ def gen_same(tier, seed, env_text):
 
 
 MINE = {"C01": {"EndToEndSound", "AnnotationResolves"}, "C14": {"OrderAndProcessFree", "TypedDictClassesOrderFree"},
-        "C06": {"StubTDBound", "StoredTDBound", "TypedDictOnlyFromRecords"}}
+        "C06": {"StubTDBound", "StoredTDBound", "TypedDictOnlyFromRecords"}, "C05": {"EndToEndTight"}}
 
 
 def causes_of(rec):
@@ -693,6 +716,8 @@ def run_pipeline(pid, tier, seed, run, replay_case=None):
         cases, plan = gen_sound(tier, seed, env_text)
         if pid == "C06":   # the k > 0 part of the enumeration is what matters here
             cases = [c for c in cases if c["k"] > 0 or c["tid"] % 4 == 0]
+        if pid == "C05":   # tightness is stated for the inferred type before any rewriter runs
+            cases = [c for c in cases if c["k"] == 0 and c["rw"] == "NONE" and not c["flag"]]
         if pid == "C01":
             devs = core.model_deviations(["Dev_RECAnyNeighbour", "Dev_RLUEmptyTupleFirst", "Dev_RLUFirstMro", "Dev_MSCBGeneric"])
             cfg = ("SPECIFICATION PSpec\nCONSTANTS\n  Ks = {0, 2}\n  MaxCalls = %d\n  Chains <- ChainsMC\n" % (2 if tier == "quick" else 3)
